@@ -5,6 +5,7 @@ import CstructModel.Hexdump
 import CstructModel.Enum
 import CstructModel.Pointer
 import CstructModel.Union
+import CstructModel.Parser
 open Cstruct Cstruct.Proto
 
 def pairs? (s : Sexp) : Option (List (String × Int)) :=
@@ -204,6 +205,20 @@ def handle (s : Sexp) : Sexp :=
             | _ => (Sexp.list [.atom "bad-op"] :: acc).reverse
           .list (.atom "ok" :: showSt s0 :: go s0 ops [])
     | _, _, _ => .list [.atom "bad-args"]
+  -- (stripcomments "text")
+  | .list [.atom "stripcomments", .str t] => .list [.atom "ok", .str (Parser.stripComments t)]
+  -- (resolvein ((name target|type) ...) name)
+  | .list [.atom "resolvein", .list tbl, n] =>
+    let binds : Option (List (String × Parser.Bind)) := tbl.mapM fun (p : Sexp) => match p with
+      | Sexp.list [k, Sexp.atom "type"] => k.string?.map (·, Parser.Bind.type 0)
+      | Sexp.list [k, Sexp.str t] => k.string?.map (·, Parser.Bind.alias t)
+      | _ => none
+    match binds, n.string? with
+    | some b, some name =>
+      match Parser.resolveB b 10 name with
+      | some _ => .list [.atom "ok"]
+      | none => .list [.atom "err", .atom "ResolveError"]
+    | _, _ => .list [.atom "bad-args"]
   | _ => .list [.atom "bad-op"]
 
 partial def loop (h out : IO.FS.Stream) : IO Unit := do
